@@ -242,6 +242,24 @@ class Scheduler:
         self.log(t.idx, 101, 6, expired, t)
         return -1.0 if expired else remaining
 
+    def start_op(self, perform):
+        """yield point inside Queue._start_thread (at its buffer.clear()): the caller parks; when picked,
+        perform() clears the buffer and returns the number of items it dropped (logged as the result)"""
+        t = self.running
+        if t is None:
+            return perform()
+        if self.killing:
+            raise Killed()
+        t.pending = (None, 'start', None, False)
+        self.back.release()
+        t.resume.acquire()
+        if self.killing:
+            raise Killed()
+        t.pending = None
+        n = perform()
+        self.log(t.idx, 102, 7, n, t)
+        return n
+
     def sem_op(self, sem, kind, blocking, timed):
         t = self.running
         if t is None:
@@ -329,7 +347,7 @@ class Scheduler:
                     out.append((t.idx, True))
                 if timed:
                     out.append((t.idx, False))
-            elif kind in ('rel', 'zero', 'send'):
+            elif kind in ('rel', 'zero', 'send', 'start'):
                 out.append((t.idx, True))
             elif kind == 'clock':
                 out.append((t.idx, True))
@@ -389,5 +407,5 @@ class Scheduler:
 
     def pending_sems(self):
         return [(-1 if (t.done or t.dormant or t.pending is None)
-                 else ((101 if t.pending[1] == 'clock' else 100) if t.pending[0] is None else t.pending[0].sid))
+                 else (({'clock': 101, 'start': 102}.get(t.pending[1], 100)) if t.pending[0] is None else t.pending[0].sid))
                 for t in self.threads]
